@@ -82,6 +82,13 @@ def find_verifiers(db):
             for cb, _, _ in db.callers_of(b.name):
                 if cb.crate == "s3s":
                     cands.setdefault(cb.name, cb)
+        elif b.kind == "Closure" and b.raw.get("coroutine"):
+            # coroutine of an `async fn` helper: its callers await it (the poll site is where it gets inlined)
+            h = db.bodies.get(b.parent)
+            if h is not None and h.kind in ("Fn", "AssocFn") and short(h.name) not in inline.anchor_names():
+                for cb, _, _ in db.callers_of(h.name):
+                    if cb.crate == "s3s":
+                        cands.setdefault(cb.name, cb)
     inl = {n: inline.inlined(db, b) for n, b in cands.items()}
     helpers = {h for ib in inl.values() for h in getattr(ib, "inlined_from", [])}
     return [Verifier(db, ib) for n, ib in sorted(inl.items()) if n not in helpers and _constructs_cred(ib)]
